@@ -47,4 +47,48 @@ a, b = "<!-- AS-BUILT:BEGIN -->", "<!-- AS-BUILT:END -->"
 if a in d:
     d = d[:d.index(a) + len(a)] + "\n" + table + "\n" + d[d.index(b):]
     (HERE / "DESIGN.md").write_text(d)
+
+def block(d, name, body):
+    a, b = f"<!-- {name}:BEGIN -->", f"<!-- {name}:END -->"
+    if a in d:
+        d = d[:d.index(a) + len(a)] + "\n" + body + "\n" + d[d.index(b):]
+    return d
+
+# findings
+fl = ["| property | id | status | commit | signature | what failed |", "|---|---|---|---|---|---|"]
+for e in kf:
+    if e["property"] == "C36" and e.get("status") == "known":
+        continue
+    what = " ".join(str(e.get("what", "")).split())[:260].replace("|", "/")
+    fl.append(f"| {e['property']} | {e.get('id','')} | {e.get('status')} | {e.get('commit','-') or '-'} | `{e.get('signature','')}` | {what} |")
+c36 = [e for e in kf if e["property"] == "C36" and e.get("status") == "known"]
+if c36:
+    locs = {}
+    for e in c36:
+        m = re.match(r"race:([^:]+(?:::[^:]+)*?):(\w+x\w+)$", e.get("signature", ""))
+        key = e.get("signature", "").rsplit(":", 1)[0]
+        locs.setdefault(key, []).append(e.get("signature", "").rsplit(":", 1)[-1])
+    for k, v in sorted(locs.items()):
+        fl.append(f"| C36 | ({len(v)} pairs) | known | - | `{k}:<roles>` | lock-less conflicting accesses, role pairs: {', '.join(sorted(v))} |")
+# false alarms from notes
+fa = []
+for pth in sorted((HERE / "notes").glob("C*.md")):
+    lines = pth.read_text().splitlines()
+    i = 0
+    while i < len(lines):
+        if lines[i].startswith("#") and "alse alarm" in lines[i]:
+            j = i + 1
+            body = []
+            while j < len(lines) and not lines[j].startswith("#"):
+                body.append(lines[j]); j += 1
+            text = "\n".join(l for l in body).strip()
+            if text:
+                fa.append(f"**{pth.stem}** ({lines[i].lstrip('# ').strip()}):\n\n{text}\n")
+            i = j
+        else:
+            i += 1
+d = (HERE / "DESIGN.md").read_text()
+d = block(d, "FINDINGS", "\n".join(fl))
+d = block(d, "FALSE-ALARMS", "\n".join(fa))
+(HERE / "DESIGN.md").write_text(d)
 print(table)
